@@ -1182,6 +1182,10 @@ func (g *gen) refMessage(kind string, ver int) refMsg {
 	case "disconnect":
 		add(1, []byte{})
 		build(true)
+	case "disconnect-with-text": // a last text in the message that ends the session
+		m.text = text
+		add(1, []byte{})
+		build(true)
 	}
 	return m
 }
@@ -1230,7 +1234,7 @@ func (s *specScenario) direction2(from, to *specParty, withDisconnect bool) {
 	g.r.Shuffle(len(kinds), func(i, j int) { kinds[i], kinds[j] = kinds[j], kinds[i] })
 	kinds = kinds[:4+g.r.Intn(len(kinds)-3)]
 	if withDisconnect {
-		kinds = append(kinds, "disconnect")
+		kinds = append(kinds, []string{"disconnect", "disconnect-with-text"}[g.r.Intn(2)])
 	}
 	// the messages are sent by a copy of `from`'s reference state: the real `from` sends none of them,
 	// and its reference twin must stay in step with it
@@ -1289,6 +1293,10 @@ func (s *specScenario) direction2(from, to *specParty, withDisconnect bool) {
 				specViol(key, describe(fmt.Sprintf("the library reads TLVs %v %x", types, values)))
 			}
 		}
+		if m.kind == "disconnect-with-text" {
+			// long after the addressee last sent anything: a heartbeat would be due
+			otr3.VerifShiftClock(to.c, 90*time.Second)
+		}
 		smpBefore := otr3.VerifSnapshot(to.c).SmpState
 		if !s.deliverData(to, f, "", m.kind) {
 			specViol(key, describe("Receive rejected the message or returned a different text"))
@@ -1297,7 +1305,7 @@ func (s *specScenario) direction2(from, to *specParty, withDisconnect bool) {
 			return
 		}
 		switch m.kind {
-		case "disconnect":
+		case "disconnect", "disconnect-with-text":
 			if st := otr3.VerifSnapshot(to.c).MsgState; st != 2 {
 				specViol(key, describe(fmt.Sprintf("message state %d after a type 1 TLV", st)))
 			}
